@@ -553,18 +553,18 @@ Proof.
   intros NSM. unfold hoist_member. destruct t as [[k lo hi| | | | | |] cs]; try discriminate.
   destruct k; try discriminate.
   - destruct cs as [|obj [|prop [|? ?]]]; try discriminate.
-    destruct (if is_ident obj || is_kind KThis obj then (obj, a, p)
+    destruct (if (is_ident obj || is_kind KThis obj) && negb (key_hoisted prop) then (obj, a, p)
               else let '(id, a1, p1) := get_temporal c obj span IKExpr a p in
                    (match id with Some i => i | None => obj end, a1, p1)) as [[obj1 a1] p1] eqn:E1.
     destruct (hoist_key c prop span a1 p1) as [[prop1 a2] p2] eqn:E2.
     intros H; inversion H; subst. apply hoist_key_ns in E2. destruct E2 as [X A].
     assert (O : mu obj1 + ns_acc a1 = mu obj + ns_acc a /\ a_args a1 = a_args a).
-    { destruct (is_ident obj || is_kind KThis obj); [inversion E1; subst; auto|].
+    { destruct ((is_ident obj || is_kind KThis obj) && negb (key_hoisted prop)); [inversion E1; subst; auto|].
       destruct (get_temporal c obj span IKExpr a p) as [[id a3] p3] eqn:T. inversion E1; subst.
       pose proof (get_temporal_args _ _ _ _ _ _ _ _ _ T) as B. apply get_temporal_ns in T. destruct T as [Y _]. auto. }
     destruct O as [O B].
     assert (N1 : is_ns_ident obj1 = false).
-    { cbn in NSM. destruct (is_ident obj || is_kind KThis obj); [inversion E1; subst; exact NSM|].
+    { cbn in NSM. destruct ((is_ident obj || is_kind KThis obj) && negb (key_hoisted prop)); [inversion E1; subst; exact NSM|].
       destruct (get_temporal c obj span IKExpr a p) as [[id a3] p3] eqn:T. inversion E1; subst.
       eapply get_temporal_not_ns; exact T. }
     rewrite (ns_node (K KMember lo hi) [obj1; prop1]); [|reflexivity|cbn; exact N1].
@@ -866,12 +866,12 @@ Proof.
   intros H; inversion H; subst. intros T. unfold hoist_member in E.
   destruct inner as [[k lo hi| | | | | |] cs]; try discriminate. destruct k; try discriminate.
   - destruct cs as [|obj [|prop [|? ?]]]; try discriminate.
-    destruct (if is_ident obj || is_kind KThis obj then (obj, a, p)
+    destruct (if (is_ident obj || is_kind KThis obj) && negb (key_hoisted prop) then (obj, a, p)
               else let '(id, a1, p1) := get_temporal c obj span IKExpr a p in
                    (match id with Some i => i | None => obj end, a1, p1)) as [[obj1 a1] p1] eqn:E1.
     destruct (hoist_key c prop span a1 p1) as [[prop1 a2] p2] eqn:E2. inversion E; subst.
     eapply hoist_key_temp; [exact E2|].
-    destruct (is_ident obj || is_kind KThis obj); [inversion E1; subst; exact T|].
+    destruct ((is_ident obj || is_kind KThis obj) && negb (key_hoisted prop)); [inversion E1; subst; exact T|].
     destruct (get_temporal c obj span IKExpr a p) as [[id a3] p3] eqn:G. inversion E1; subst.
     eapply get_temporal_temp; [exact G | exact T].
   - destruct cs as [|obj [|prop [|? ?]]]; try discriminate.
@@ -970,7 +970,7 @@ Proof.
         cbn [oc_set_new_ident oc_p]; (eapply oc_get_ident_temp; [exact E2 | eapply oc_get_ident_temp; [exact E1 | exact T]]).
     + intros H; inversion H; subst. intros T. eapply oc_get_ident_temp; [exact E1 | exact T].
   - destruct (oc_get_ident c callee s) as [[nid|] s1] eqn:E1.
-    + destruct (oc_assigns s1); intros H; inversion H; subst; intros T; cbn [oc_set_new_ident oc_p];
+    + destruct (oc_assigns s1); [|destruct (is_kind KSuperProp _)]; intros H; inversion H; subst; intros T; cbn [oc_set_new_ident oc_p];
         (eapply oc_get_ident_temp; [exact E1 | exact T]).
     + intros H; inversion H; subst. intros T. eapply oc_get_ident_temp; [exact E1 | exact T].
 Qed.
